@@ -302,7 +302,9 @@ def inplace_mutations(body, R=None):
         t = body.blocks[w.bb]['term']
         a0 = t['args'][0]
         ty = body.local_ty(a0['place']['local']) if a0['k'] in ('copy', 'move') else ''
-        if 'ArrayBase' in ty or 'AffFuncBase' in ty:
+        # the mutated object itself is an array / affine function (a Vec of views that is pushed to is a collection being built, handled by the rules)
+        t0 = ty.lstrip('&').replace('mut ', '').strip()
+        if t0.startswith('ndarray::ArrayBase') or t0.startswith('ArrayBase') or 'AffFuncBase' in t0.split('<')[0]:
             out.append(w)
     return out
 
@@ -319,6 +321,14 @@ def kernel_return(F, body):
     if rets[0][0] == 'phi':
         raise OutOfFragment('data-dependent result')
     return R, rets[0]
+
+
+def kernel_return_soft(F, body):
+    """kernel_return for shape-matching callers: outside the fragment the return expression is ('unknown', reason), which matches no shape."""
+    try:
+        return kernel_return(F, body)
+    except OutOfFragment as e:
+        return Resolver(body), ('unknown', str(e))
 
 
 def index_writes(body, R, base_expr):
